@@ -3,8 +3,10 @@ package main
 import (
 	"fmt"
 	"math/rand"
+	"os"
 	"runtime"
 	"sort"
+	"time"
 )
 
 // Driver "ws": runs protocol scenarios (one per input line {"sc": name, "args": {...}}) against a fresh World each
@@ -80,12 +82,16 @@ func runWS(env *Env) error {
 		if n := args.Int("procs", 0); n > 0 {
 			prev = runtime.GOMAXPROCS(n)
 		}
+		t0 := time.Now()
 		serr := sc(w, args, rng)
 		w.Close()
+		if os.Getenv("VERIF_DEBUG") != "" {
+			fmt.Fprintf(os.Stderr, "scenario %d %s %v: %.2fs\n", i+1, name, args, time.Since(t0).Seconds())
+		}
 		if prev > 0 {
 			runtime.GOMAXPROCS(prev)
 		}
-		env.W.Emit(Ev{"ev": "reset", "sc": i + 1, "name": name, "args": args, "seed": seed})
+		env.W.Emit(Ev{"ev": "reset", "sc": i + 1, "name": name, "args": args, "seed": seed, "hooks": hooks})
 		for _, e := range rec.Events() {
 			env.W.Emit(e)
 		}
